@@ -38,11 +38,11 @@ def seed_basic() -> Tuple[Doc, Dict[str, Any]]:
     f1 = doc.add(font_type1("Helvetica", Encoding=N("WinAnsiEncoding")))
     f2 = doc.add(font_widths(name="SeedTT", first=32, widths=[500 + (i % 7) * 50 for i in range(95)], subtype="TrueType",
                              encoding={"Type": N("Encoding"), "BaseEncoding": N("WinAnsiEncoding"), "Differences": [65, N("Aacute"), N("uni0042")]}))
-    c1 = doc.add(Stream({}, b"BT /F1 12 Tf 20 250 Td 14 TL (Hello seed) Tj T* [(kern) -120 (ed)] TJ /F2 10 Tf (ABC xyz) ' ET\n"
+    c1 = doc.add(Stream({}, b"BT /F1 12 Tf 20 250 Td 14 TL (Hello seed) Tj T* [(kern) -120 (ed)] TJ /F#202 10 Tf (ABC\\040xyz) ' ET\n"
                             b"q 1 0 0 1 5 5 cm 0.5 g 10 10 50 20 re f 2 w 0 0 m 100 100 l S Q"))
-    c2a = doc.add(Stream({}, b"BT /F2 9 Tf 1 0 0 1 30 200 Tm (second"))
+    c2a = doc.add(Stream({}, b"BT /F#202 9 Tf 1 0 0 1 30 200 Tm (second"))
     c2b = doc.add(Stream({}, b" page) Tj ET"))
-    res = doc.add({"Font": {"F1": f1, "F2": f2}, "ProcSet": [N("PDF"), N("Text")]})
+    res = doc.add({"Font": {"F1": f1, "F 2": f2}, "ProcSet": [N("PDF"), N("Text")]})   # written /F#202
     return _finish(doc, [{"Resources": res, "Contents": c1, "Rotate": 90, "CropBox": [10, 10, 290, 290]},
                          {"Resources": res, "Contents": [c2a, c2b]}],
                    info={"Title": b"Seed basic", "Producer": b"\xfe\xff\x00v\x00f"}), {}
